@@ -55,6 +55,23 @@ var tagPool = func() []string {
 
 const nExtra = 5
 
+// Tags(last): two cursors, a pool name and a string that is no tag; lastFrom[i] is the pool
+// index of the first name greater than lastNames[i]
+var lastNames = []string{tagPool[1], "m"}
+var lastFrom = func() []int {
+	var out []int
+	for _, l := range lastNames {
+		n := 0
+		for _, t := range tagPool {
+			if t <= l {
+				n++
+			}
+		}
+		out = append(out, n)
+	}
+	return out
+}()
+
 // applyExtra returns the descriptor of a node with the x-th variant of
 // "everything else a descriptor can carry".
 func applyExtra(d ocispec.Descriptor, x int) ocispec.Descriptor {
@@ -102,6 +119,7 @@ type target interface {
 // observation of one store, field by field (strings are canonical tokens)
 type obs struct {
 	Tags []string          // pool indices
+	From []string          // Tags(last) for the cursors of lastNames
 	RT   map[string]string // tag index -> "k.x" (descriptor up to the ref-name annotation)
 	RTa  map[string]string // tag index -> ref-name annotation token
 	RD   []string          // per node: D | B | N | X...
@@ -112,6 +130,9 @@ type obs struct {
 func (o *obs) String() string {
 	var b strings.Builder
 	b.WriteString("tags=" + strings.Join(o.Tags, ","))
+	for i, f := range o.From {
+		fmt.Fprintf(&b, ";tf%d=%s", lastFrom[i], f)
+	}
 	keys := make([]int, 0, len(o.RT))
 	for k := range o.RT {
 		i, _ := strconv.Atoi(k)
@@ -216,6 +237,21 @@ func (w *world) observe(t target) *obs {
 			o.Tags = append(o.Tags, "?"+common.Hex(n))
 		}
 	}
+	for _, l := range lastNames {
+		var after []string
+		if err := t.Tags(ctx, l, func(tags []string) error { after = append(after, tags...); return nil }); err != nil {
+			after = []string{"!" + errTok(err)}
+		}
+		var ids []string
+		for _, n := range after {
+			if i, ok := w.tagIdx[n]; ok {
+				ids = append(ids, strconv.Itoa(i))
+			} else {
+				ids = append(ids, "?"+common.Hex(n))
+			}
+		}
+		o.From = append(o.From, strings.Join(ids, ","))
+	}
 	for i, n := range tagPool {
 		d, err := t.Resolve(ctx, n)
 		if err != nil {
@@ -300,7 +336,7 @@ type rawIndex struct {
 }
 
 // validateLayout returns (all index entries point to existing blobs, list of (signature, message)).
-func validateLayout(dir string) (bool, [][2]string) {
+func validateLayout(dir string, ignore map[string]bool) (bool, [][2]string) {
 	var bad [][2]string
 	add := func(sig, msg string) { bad = append(bad, [2]string{sig, msg}) }
 	lb, err := os.ReadFile(filepath.Join(dir, "oci-layout"))
@@ -329,12 +365,15 @@ func validateLayout(dir string) (bool, [][2]string) {
 	blobsDir := filepath.Join(dir, "blobs")
 	algs, _ := os.ReadDir(blobsDir)
 	for _, a := range algs {
-		if !a.IsDir() {
+		if !a.IsDir() || ignore[filepath.Join(blobsDir, a.Name())] {
 			continue
 		}
 		alg := digest.Algorithm(a.Name())
 		files, _ := os.ReadDir(filepath.Join(blobsDir, a.Name()))
 		for _, f := range files {
+			if ignore[filepath.Join(blobsDir, a.Name(), f.Name())] {
+				continue
+			}
 			data, err := os.ReadFile(filepath.Join(blobsDir, a.Name(), f.Name()))
 			if err != nil {
 				add("layout-blob-read", f.Name()+": "+err.Error())
@@ -437,6 +476,12 @@ type runner struct {
 	out    []string
 	failed map[string]bool
 	hung   bool
+	strays []strayFile // files put under blobs/ that are no content of the store
+}
+
+type strayFile struct {
+	tok  string // x<kind><id>
+	path string
 }
 
 func (r *runner) fail(sig, msg string) {
@@ -553,6 +598,42 @@ func (r *runner) exec(op string) string {
 		return "ok"
 	case 'C':
 		return r.checkpoint()
+	case 'I': // node bytes written as a blob file behind the store's back
+		k, _ := strconv.Atoi(arg)
+		n := g.Nodes[k]
+		p := filepath.Join(r.dir, "blobs", n.Desc.Digest.Algorithm().String(), n.Desc.Digest.Encoded())
+		if _, err := os.Stat(p); err != nil {
+			if err := os.MkdirAll(filepath.Dir(p), 0o777); err != nil {
+				panic(err)
+			}
+			if err := os.WriteFile(p, n.Bytes, 0o444); err != nil {
+				panic(err)
+			}
+		}
+		return "ok"
+	case 'X': // a file under blobs/ that is no content
+		id := arg[1:]
+		var p string
+		blobs := filepath.Join(r.dir, "blobs")
+		switch arg[0] {
+		case 'v':
+			p = filepath.Join(blobs, "sha256", digest.FromString("stray-valid-"+id).Encoded())
+		case 'i':
+			p = filepath.Join(blobs, "sha256", "stray-"+id+".tmp")
+		case 'a':
+			p = filepath.Join(blobs, "sha999", digest.FromString("stray-alg-"+id).Encoded())
+			r.strays = append(r.strays, strayFile{"-", filepath.Dir(p)})
+		case 'f':
+			p = filepath.Join(blobs, "stray-"+id)
+		}
+		if err := os.MkdirAll(filepath.Dir(p), 0o777); err != nil {
+			panic(err)
+		}
+		if err := os.WriteFile(p, []byte("not content "+id), 0o444); err != nil {
+			panic(err)
+		}
+		r.strays = append(r.strays, strayFile{"x" + arg, p})
+		return "ok"
 	}
 	panic("bad op " + op)
 }
@@ -615,6 +696,7 @@ func (r *runner) checkpoint() string {
 			}
 		}
 		cmp("reopen-tags", o.Tags, orig.Tags)
+		cmp("reopen-tags-last", o.From, orig.From)
 		cmp("reopen-resolve-tag", o.RT, orig.RT)
 		cmp("reopen-resolve-digest", o.RD, orig.RD)
 		cmp("reopen-exists-fetch", o.E, orig.E)
@@ -633,7 +715,20 @@ func (r *runner) checkpoint() string {
 		}
 	}
 	os.Remove(tarPath)
-	all, bad := validateLayout(r.dir)
+	ignore := map[string]bool{}
+	var xs []string
+	for _, st := range r.strays {
+		ignore[st.path] = true
+		if st.tok == "-" {
+			continue
+		}
+		if _, err := os.Stat(st.path); err == nil {
+			xs = append(xs, st.tok+"=1")
+		} else {
+			xs = append(xs, st.tok+"=0")
+		}
+	}
+	all, bad := validateLayout(r.dir, ignore)
 	if r.synced {
 		for _, b := range bad {
 			r.fail(b[0], b[1])
@@ -646,7 +741,7 @@ func (r *runner) checkpoint() string {
 	if all {
 		v = "v1"
 	}
-	return "C[" + strings.Join(parts, "|") + "|" + v + "]"
+	return "C[" + strings.Join(parts, "|") + "|" + v + "|x:" + strings.Join(xs, ",") + "]"
 }
 
 // ---------- generator ----------
@@ -712,7 +807,9 @@ func (r *runner) do(op string) {
 	r.h.Ops = append(r.h.Ops, op) // before exec: a replay written by the oracle includes the failing check point
 	res := r.exec(op)
 	r.out = append(r.out, res)
-	if op[0] != 'C' {
+	if op[0] == 'X' {
+		run.Count("op:X" + op[1:2])
+	} else if op[0] != 'C' {
 		run.Count("op:" + op[:1] + ":" + strings.SplitN(res, ":", 2)[0])
 	}
 }
@@ -766,7 +863,7 @@ func (r *runner) generate(rnd *common.Rand, nops int) {
 			} else {
 				r.do(fmt.Sprintf("P%d", k))
 			}
-		case c < 62: // tag
+		case c < 61: // tag
 			k := common.Pick(rnd, real)
 			if p, ok := pickPresent(); ok && rnd.Chance(9, 10) {
 				k = p
@@ -785,7 +882,7 @@ func (r *runner) generate(rnd *common.Rand, nops int) {
 				ref = "d"
 			}
 			r.do(fmt.Sprintf("T%d:%d:%s:%s", k, x, a, ref))
-		case c < 70: // untag
+		case c < 69: // untag
 			if rnd.Chance(1, 8) {
 				r.do(fmt.Sprintf("V%d", common.Pick(rnd, real)))
 			} else {
@@ -801,7 +898,7 @@ func (r *runner) generate(rnd *common.Rand, nops int) {
 				}
 				r.do(fmt.Sprintf("U%d", t))
 			}
-		case c < 80: // delete
+		case c < 79: // delete
 			{
 				k := common.Pick(rnd, real)
 				if p, ok := pickPresent(); ok && rnd.Chance(4, 5) {
@@ -817,19 +914,31 @@ func (r *runner) generate(rnd *common.Rand, nops int) {
 				}
 				r.do(fmt.Sprintf("D%d", k))
 			}
-		case c < 84: // GC
+		case c < 83: // GC
 			if len(r.gcOffenders()) > 0 {
 				// untagged manifests whose subject is outside the tagged closure (subject
 				// chains, referrers of referrers, referrers of garbage)
 				run.Count("gc:with-untagged-subject-chains")
 			}
 			r.do("G")
-		case c < 88: // SaveIndex
+		case c < 87: // SaveIndex
 			r.do("S")
-		case c < 91: // reopen read-write (only when index.json is current)
+		case c < 90: // reopen read-write (only when index.json is current)
 			if r.synced {
 				r.do("R")
 			}
+		case c < 92: // a layer appears in blobs/ without Push
+			var ls []int
+			for _, k := range real {
+				if !g.Nodes[k].IsManifest() {
+					ls = append(ls, k)
+				}
+			}
+			if len(ls) > 0 {
+				r.do(fmt.Sprintf("I%d", common.Pick(rnd, ls)))
+			}
+		case c < 94: // stray file under blobs/
+			r.do(fmt.Sprintf("X%s%d", common.Pick(rnd, []string{"v", "v", "i", "a", "f"}), len(r.strays)))
 		default:
 			r.do("C")
 		}
@@ -855,7 +964,7 @@ func caseLine(h *history, g *dag.Graph) string {
 	if meta == "" {
 		meta = "-"
 	}
-	fmt.Fprintf(&b, "H %s %s %s %d %d", meta, bit(h.AutoSave), bit(h.AutoGC), len(g.Nodes), len(tagPool))
+	fmt.Fprintf(&b, "H %s %s %s %d %d %d,%d", meta, bit(h.AutoSave), bit(h.AutoGC), len(g.Nodes), len(tagPool), lastFrom[0], lastFrom[1])
 	for _, n := range g.Nodes {
 		fl := "b"
 		if n.IsManifest() {
@@ -928,7 +1037,9 @@ func (r *runner) finish() {
 }
 
 func generateHistory(seed uint64, index int, thorough bool) {
-	rnd := common.NewRand(seed*1000003 + uint64(index))
+	// per-history stream: the seed of NewRand is linear in its argument (consecutive arguments
+	// give shifted copies of one stream), so go through one mixed output first
+	rnd := common.NewRand(common.NewRand(seed*1000003+uint64(index)).U64() ^ uint64(index)*0x2545F4914F6CDD1D)
 	h := &history{AutoSave: rnd.Chance(7, 10), AutoGC: rnd.Chance(2, 5)}
 	if index%16 == 15 { // small scope
 		h.AutoSave, h.AutoGC = index%32 == 15, false
